@@ -1,6 +1,6 @@
 /* harness/C16_seq.c -- BOUNDED stand-ins for the list-walking functions of
  * jwks.c (property C16): keyrings of <= C16_N items (errored or not, kids
- * NULL/"a"/"b", set error set or not) built with the REAL
+ * NULL/"a"/"b"/"ab", set error set or not) built with the REAL
  * jwks_item_add/list_add_tail, one scenario per C16_MODE, compared with an
  * array model.  Plain cbmc, --unwinding-assertions on, real malloc/free
  * (use-after-free is checked).  cbmc has no inductive list predicate: the
@@ -19,9 +19,9 @@ _Bool nondet_bool(void);
 static char *mkkid(unsigned k)
 {
 	if (k == 0) return NULL;
-	char *s = malloc(2);
+	char *s = malloc(3);
 	__CPROVER_assume(s != NULL);
-	s[0] = k == 1 ? 'a' : 'b'; s[1] = 0;
+	s[0] = k == 2 ? 'b' : 'a'; s[1] = k == 3 ? 'b' : 0; s[2] = 0;	/* "a", "b", "ab" */
 	return s;
 }
 static int kid_is(jwk_item_t *it, char c) { return it->kid != NULL && it->kid[0] == c && it->kid[1] == 0; }
@@ -33,7 +33,7 @@ static jwk_item_t *mkitem(void)
 	it->pem = NULL; it->oct.key = NULL; it->oct.len = 0; it->json = NULL; it->node.next = NULL; it->node.prev = NULL;
 	it->provider = JWT_CRYPTO_OPS_ANY;
 	it->error = nondet_bool();
-	unsigned k = nondet_uint(); __CPROVER_assume(k <= 2);
+	unsigned k = nondet_uint(); __CPROVER_assume(k <= 3);
 	it->kid = mkkid(k);
 	return it;
 }
